@@ -610,3 +610,53 @@ theorem NC.freeHead {fat : Array Nat} {hs : List Nat} {cur next : Nat} (n : NC f
   ⟨n.ns.freeHead hcur hnf, CH.freeHead n.ns n.ch hcur, Cover.freeHead n.ns n.ch n.cov hcur⟩
 
 end CfbVerif.Phys
+
+/-! ## dropping a trailing FREE cell (the in-memory MiniFAT is trimmed) -/
+namespace CfbVerif.Phys
+open CfbVerif.Raw
+
+theorem NC.pop {fat : Array Nat} {hs : List Nat} (n : NC fat hs) (hback : fat.back? = some FREE) : NC fat.pop hs := by
+  have hlast : fat[fat.size - 1]? = some FREE := by
+    rw [Array.back?_eq_getElem?] at hback; exact hback
+  -- cells in use are not the last one
+  have keep : ∀ x w : Nat, fat[x]? = some w → w ≠ FREE → fat.pop[x]? = fat[x]? := by
+    intro x w hx hw
+    rw [Array.getElem?_pop, if_pos]
+    have hl := lt_of_get hx
+    rcases Nat.lt_or_ge x (fat.size - 1) with hc | hc
+    · exact hc
+    · have : x = fat.size - 1 := by omega
+      rw [this, hlast] at hx
+      exact absurd (Option.some.inj hx).symm hw
+  have old : ∀ i v : Nat, fat.pop[i]? = some v → fat[i]? = some v := by
+    intro i v h
+    rw [Array.getElem?_pop] at h
+    split at h
+    · exact h
+    · cases h
+  have frameChain : ∀ {a : Nat} {l : List Nat}, IsChain fat a l → IsChain fat.pop a l := by
+    intro a l c
+    refine c.frame ?_
+    intro x hx
+    obtain ⟨w, hw, hwf⟩ := c.used x hx
+    exact keep x w hw hwf
+  refine ⟨n.ns.pop hback, ?_, ?_⟩
+  · intro h hh
+    obtain ⟨l, cl⟩ := n.ch h hh
+    exact ⟨l, frameChain cl⟩
+  · intro x w hx hw
+    obtain ⟨h, hh, l, cl, hxl⟩ := n.cov x w (old x w hx) hw
+    exact ⟨h, hh, l, frameChain cl, hxl⟩
+
+theorem nc_trim (fuel : Nat) : ∀ {mf : Array Nat} {len : Nat} {hs : List Nat}, NC mf hs →
+    NC (trimMiniFat fuel mf len).1 hs := by
+  induction fuel with
+  | zero => intro mf len hs n; exact n
+  | succ fuel ih =>
+    intro mf len hs n
+    unfold trimMiniFat
+    split
+    · rename_i hb; exact ih (len := len - MINI) (n.pop hb)
+    · exact n
+
+end CfbVerif.Phys
